@@ -1047,8 +1047,8 @@ async fn build_world<'a>(cfg: &CfgGen, rep: &'a mut Report, trace: bool, index: 
             (global, svc)
         }
     };
-    let l4 = TcpListener::bind("127.0.0.1:0").await.map_err(|e| format!("bind v4 listener: {}", e))?;
-    let l6 = TcpListener::bind("[::1]:0").await.ok();
+    let l4 = crate::verif_hooks::bind_retry(SocketAddr::new(IpAddr::V4(Ipv4Addr::LOCALHOST), 0)).await.map_err(|e| format!("bind v4 listener: {}", e))?;
+    let l6 = crate::verif_hooks::bind_retry(SocketAddr::new(IpAddr::V6(Ipv6Addr::LOCALHOST), 0)).await.ok();
     Ok(World {
         rep,
         loader: cfg.loader,
@@ -1221,31 +1221,65 @@ impl<'a> World<'a> {
         Adm::Accept(format!("dynamic-prefix/{}", best))
     }
 
+    /// Every harness socket is closed with RST (no TIME_WAIT left behind) and bind / connect
+    /// wait out a shortage of ephemeral ports (crate::verif_hooks helpers).
     async fn make_pair(&self, addr: IpAddr, role: Role) -> Result<(TcpStream, TcpStream), String> {
         match role {
             Role::Passive => {
-                let (sock, l) = if addr.is_ipv4() {
-                    (TcpSocket::new_v4().map_err(|e| e.to_string())?, &self.l4)
-                } else {
-                    (TcpSocket::new_v6().map_err(|e| e.to_string())?, self.l6.as_ref().ok_or("no ::1 listener")?)
-                };
-                sock.bind(SocketAddr::new(addr, 0)).map_err(|e| format!("bind {}: {}", addr, e))?;
+                let l = if addr.is_ipv4() { &self.l4 } else { self.l6.as_ref().ok_or("no ::1 listener")? };
                 let la = l.local_addr().map_err(|e| e.to_string())?;
-                let (c, s) = tokio::join!(sock.connect(la), l.accept());
-                let c = c.map_err(|e| format!("connect from {}: {}", addr, e))?;
-                let (s, from) = s.map_err(|e| e.to_string())?;
-                if from.ip() != addr {
-                    return Err(format!("accepted a connection from {} instead of {}", from.ip(), addr));
+                let mut last = String::new();
+                for _ in 0..200 {
+                    let sock = if addr.is_ipv4() { TcpSocket::new_v4() } else { TcpSocket::new_v6() }.map_err(|e| e.to_string())?;
+                    let shortage = |e: &std::io::Error| matches!(e.kind(), std::io::ErrorKind::AddrInUse | std::io::ErrorKind::AddrNotAvailable);
+                    if let Err(e) = sock.bind(SocketAddr::new(addr, 0)) {
+                        if shortage(&e) {
+                            last = format!("bind {}: {}", addr, e);
+                            tokio::time::sleep(Duration::from_millis(500)).await;
+                            continue;
+                        }
+                        return Err(format!("bind {}: {}", addr, e));
+                    }
+                    let (c, s) = tokio::join!(sock.connect(la), async {
+                        // the connect may fail: do not wait for a connection that never comes
+                        tokio::time::timeout(Duration::from_secs(5), l.accept()).await
+                    });
+                    let c = match c {
+                        Ok(c) => c,
+                        Err(e) if shortage(&e) => {
+                            last = format!("connect from {}: {}", addr, e);
+                            tokio::time::sleep(Duration::from_millis(500)).await;
+                            continue;
+                        }
+                        Err(e) => return Err(format!("connect from {}: {}", addr, e)),
+                    };
+                    let (s, from) = match s {
+                        Ok(Ok(x)) => x,
+                        Ok(Err(e)) => return Err(e.to_string()),
+                        Err(_) => return Err("accept on the harness listener timed out".into()),
+                    };
+                    crate::verif_hooks::no_time_wait(&c);
+                    crate::verif_hooks::no_time_wait(&s);
+                    if from.ip() != addr {
+                        return Err(format!("accepted a connection from {} instead of {}", from.ip(), addr));
+                    }
+                    return Ok((c, s));
                 }
-                Ok((c, s))
+                Err(format!("no ephemeral port after 200 tries: {}", last))
             }
             Role::Active => {
                 // what enable_active_connect produces: a socket connected TO the neighbour's address
-                let l = TcpListener::bind(SocketAddr::new(addr, 0)).await.map_err(|e| format!("bind listener {}: {}", addr, e))?;
+                let l = crate::verif_hooks::bind_retry(SocketAddr::new(addr, 0)).await.map_err(|e| format!("bind listener {}: {}", addr, e))?;
                 let la = l.local_addr().map_err(|e| e.to_string())?;
-                let (d, c) = tokio::join!(TcpStream::connect(la), l.accept());
+                let (d, c) = tokio::join!(crate::verif_hooks::connect_retry(la), async { tokio::time::timeout(Duration::from_secs(110), l.accept()).await });
                 let d = d.map_err(|e| format!("connect to {}: {}", addr, e))?;
-                let (c, _) = c.map_err(|e| e.to_string())?;
+                let (c, _) = match c {
+                    Ok(Ok(x)) => x,
+                    Ok(Err(e)) => return Err(e.to_string()),
+                    Err(_) => return Err("accept on the harness listener timed out".into()),
+                };
+                crate::verif_hooks::no_time_wait(&c);
+                crate::verif_hooks::no_time_wait(&d);
                 Ok((c, d))
             }
         }
@@ -1320,6 +1354,8 @@ impl<'a> World<'a> {
                 return;
             }
         };
+        // (both ends are closed with RST -- no TIME_WAIT; on loopback bytes written before the
+        // close are in the client's receive queue before the RST and are still read first)
         let is_static = self.statics.contains_key(&addr);
         let sib = self.live(&addr);
         let res = accept_connection(&self.global, &self.tables, server, role).await;
@@ -1415,8 +1451,7 @@ impl<'a> World<'a> {
 
     #[allow(clippy::too_many_arguments)]
     async fn after_accept(&mut self, session: PeerSession, client: TcpStream, addr: IpAddr, role: Role, drive: Drive, is_static: bool, had_sibling: bool, skip_setup: bool) {
-        #[allow(deprecated)]
-        let _ = client.set_linger(Some(Duration::ZERO));
+        crate::verif_hooks::no_time_wait(&client);
         // ---- what the session was set up with
         let mut obs = Observed {
             role: Some(session.export_ctx.role),
@@ -1527,9 +1562,12 @@ impl<'a> World<'a> {
         }
         self.rep.eval();
         // which group's parameters does the session carry?  The one it differs least from; fields
-        // that identify a group (AS, families, hold time, role ...) weigh more than a single
-        // add-path difference, so that one wrong detail does not make another group look closer.
-        let distance = |e: &Expect| -> usize { diff(e, &obs).iter().map(|(f, _)| if f.starts_with("addpath") { 1 } else { 10 }).sum() };
+        // that identify a group weigh more (the expected AS most, it is copied verbatim from the
+        // group) than a single add-path difference, so that one wrong detail does not make
+        // another group look closer.
+        let distance = |e: &Expect| -> usize {
+            diff(e, &obs).iter().map(|(f, _)| if f.starts_with("addpath") { 1 } else if f == "expected-as" { 100 } else { 10 }).sum()
+        };
         let best = cands.iter().min_by_key(|e| distance(e)).unwrap().clone();
         let diffs = diff(&best, &obs);
         self.rep.count(&format!("setup:judged:{}", best.kind));
